@@ -96,9 +96,23 @@ def pool(procs=14):
 
 
 def shutdown_pool():
+    """stop the worker processes for good: they are killed, not waited for (a worker that
+    never came up -- fork in a process with threads -- must not block the interpreter's exit,
+    which joins every child)"""
     global _pool
     if _pool is not None:
+        procs = list(getattr(_pool, "_processes", {}).values())
         _pool.shutdown(wait=False, cancel_futures=True)
+        for p in procs:
+            try:
+                p.kill()
+            except Exception:
+                pass
+        for p in procs:
+            try:
+                p.join(timeout=2)
+            except Exception:
+                pass
         _pool = None
 
 
@@ -111,7 +125,19 @@ def discharge_parallel(obs, timeout_ms=20000, procs=14, min_batch=12):
             discharge(ob, timeout_ms)
         return obs
     texts = [(smt2_of(ob), timeout_ms) for ob in todo]
-    results = list(pool(procs).map(_worker, texts, chunksize=max(1, len(texts) // (procs * 4))))
+    # a worker that never comes up (fork in a process with threads) would block map() for
+    # ever: overall time limit, then the remaining obligations are discharged in this process
+    import concurrent.futures as _cf
+    budget = (len(texts) / max(1, procs) + 2) * (timeout_ms / 1000.0) + 60
+    results = []
+    try:
+        for r in pool(procs).map(_worker, texts, chunksize=max(1, len(texts) // (procs * 4)), timeout=budget):
+            results.append(r)
+    except (_cf.TimeoutError, _cf.process.BrokenProcessPool):
+        shutdown_pool()
+        for ob in todo[len(results):]:
+            discharge(ob, timeout_ms)
+        todo = todo[:len(results)]
     for ob, (r, dt, why) in zip(todo, results):
         ob.time = dt
         ob.backend = "z3-" + z3.get_version_string()
